@@ -27,6 +27,7 @@ def main():
     common.impl_env()
     chk = common.Check(a.cid, a.tier, seed)
     mod = importlib.import_module("props." + a.cid)
+    write_ev = (not a.replay) and not os.environ.get("VERIF_NO_EVIDENCE")
     try:
         # 0. the development must contain no escape hatches
         hits = common.forbidden_scan()
@@ -69,11 +70,11 @@ def main():
             mod.replay(chk, json.load(open(a.replay)))
         else:
             mod.run(chk)
-        rc = common.finish(chk, getattr(mod, "classify", None), write_evidence=(not a.replay) and not os.environ.get("VERIF_NO_EVIDENCE"))
+        rc = common.finish(chk, getattr(mod, "classify", None), write_evidence=write_ev)
     except Exception:
         traceback.print_exc()
         chk.oblige("check machinery ran to completion", False, traceback.format_exc()[-1500:])
-        rc = common.finish(chk, getattr(mod, "classify", None))
+        rc = common.finish(chk, getattr(mod, "classify", None), write_evidence=write_ev)   # (a seed trial must not overwrite the evidence on this path either)
     sys.exit(rc)
 
 
